@@ -26,7 +26,6 @@ RULE = ("seeded histories over 1-4 JSON files (one object each) of one buffered 
         "disk and accepts a write. Fault kinds: outside_write_conflict, forced_flush. Non-trivial = >=1 outside write "
         "landed while a buffered copy existed; distinct = (roles, timing, shape, strategy) + step-shape hashes.")
 ASSUMPTIONS = ["reads of a file that was changed outside while buffered are not compared (the statement does not define them)",
-               "after a capacity-forced flush that reported a conflict no further buffered writes go to the conflicting file",
                "one object per file"]
 COMPONENTS = {"real": ["synced_collections (working tree)", "tmpfs file system", "os.stat metadata (size, mtime_ns)"], "stub": []}
 EXPECT_PROBES = {"quick": ["outside_write_while_buffered", "conflict_expected", "conflict_with_clean_files"],
@@ -115,11 +114,78 @@ class W(World):
                         r.disk = deep(r.model)
                         b["modified"] = False
                     elif b["modified"]:
-                        b["modified"] = False      # the buffered copy is flagged clean again: it will not be written,
-                        b["changed_after"] = True  # and once the contexts exit the object shows what is on disk
-                        b["dead"] = True           # no further buffered writes (see ASSUMPTIONS)
+                        b["modified"] = False      # the buffered copy is flagged clean again: unless it is modified once
+                        b["changed_after"] = True  # more it will not be written, and the object then shows what is on disk
         self.call(lambda: cls.set_buffer_capacity(before))
         self.check_backend(what="after the forced flush")
+
+    def st_opforce(self, st):
+        """A capacity-forced flush triggered from INSIDE an operation on another file: the capacity is first set to the
+        current buffer size (no flush: not smaller), then the operation's first buffered access / write pushes the size
+        over it."""
+        cls = self.cls_of(st["family"], st["kind"])
+        before = cls.get_buffer_capacity()
+        h = self.handles[st["hid"]]
+        ob = self.objs[h.oid]
+        rb = self.res[ob.rid]
+        if rb.bufstate is not None or not self.backend_depth.get(cls) or ob.depth:
+            raise Skip()
+        from ..core.values import get_path as _gp0
+        if isinstance(M.model_apply(_gp0(deep(rb.model), h.path), st["name"], M.dec(st["args"], None)), M.Raised):
+            raise Skip()   # only operations that succeed on their own are used to trigger the flush
+        mine = [r.rid for r in self.res if self.cls_of(r.family, r.kind) is cls and r.bufstate is not None]
+        conflicting = self.conflicts(mine)
+        res = self.call(lambda: cls.set_buffer_capacity(cls.get_current_buffer_size()))
+        if isinstance(res, M.Raised):
+            raise Violation("unexpected_error", f"set_buffer_capacity(current size) raised {res!r}")
+        memory = self.cfg["strategy"] == "memory"
+        args = M.dec(st["args"], None)
+        trial = deep(rb.model)
+        from ..core.values import get_path as _gp
+        mres = M.model_apply(_gp(trial, h.path), st["name"], M.dec(st["args"], None))
+        is_mut = M.is_mutator(h.kind, st["name"])
+        size_positive = any(self.res[rid].bufstate["modified"] for rid in mine) if memory else bool(mine)
+        will_force = (is_mut if memory else True)
+        res = self.lib_op(h.node, st["name"], args)
+        self.stat("fault_forced_flush")
+        if will_force and conflicting:
+            self.probe("op_forced_flush_conflict")
+        self.check_exc(res, "backend", conflicting if will_force else [], f"{st['name']} on another file that forces a flush")
+        if will_force:
+            for rid in mine:
+                r = self.res[rid]
+                b = r.bufstate
+                if not memory:
+                    self.settle(rid, True)
+                elif b["modified"] and not b["changed_after"]:
+                    r.disk = deep(r.model)
+                    b["modified"] = False
+                elif b["modified"]:
+                    b["modified"], b["changed_after"] = False, True
+        # the operation on the other file itself
+        raised = isinstance(res, M.Raised)
+        if memory:
+            if is_mut and not isinstance(mres, M.Raised):
+                rb.model, rb.exists = trial, True
+                rb.bufstate = {"modified": False, "changed_after": False, "mutated": True}
+                rb.disk = deep(trial)      # flushed by the forced flush it triggered (it is not conflicting)
+            elif rb.bufstate is None:
+                rb.bufstate = {"modified": False, "changed_after": False, "mutated": False}
+        else:
+            if not raised and is_mut and not isinstance(mres, M.Raised):
+                # serialized: the load forced a flush (this file's fresh entry is dropped), then the save re-enters the
+                # buffer and forces another flush that writes this file: the write is on disk, nothing stays buffered
+                # ... unless the new document alone still fits the capacity: then it stays buffered. Both are legal;
+                # which one happened is read off the disk (this file is only the trigger, not the file under test).
+                obs_b = self.observe(rb)
+                rb.model, rb.exists = trial, True
+                if obs_b is not ABSENT and same(obs_b, trial):
+                    rb.disk, rb.bufstate = deep(trial), None
+                else:
+                    rb.bufstate = {"modified": True, "changed_after": False, "mutated": True}
+            # a read (or a write that raised at load time) leaves nothing buffered for this file
+        self.call(lambda: cls.set_buffer_capacity(before))
+        self.check_backend(what="after the operation-triggered forced flush")
 
     def finish(self):
         if self.ctx:
@@ -156,7 +222,7 @@ WorldClass = W
 def make_cfg(rs, tier):
     cfg = _buf.base_cfg(rs, ID, nres=rs.choice([1, 2, 3, 4]))
     cfg.update(capmode="huge", forced_flush_possible=False, oracles=["backend"], kinds=[G.pick(rs, ["dict", "list"]) for _ in range(4)],
-               shape=rs.choice(["obj", "backend", "nested", "backend"]), forced=rs.random() < 0.25,
+               shape=rs.choice(["obj", "backend", "nested", "backend"]), forced=rs.random() < 0.35,
                roles=[rs.choice(["modified", "modified", "readonly", "untouched"]) for _ in range(4)],
                outside=[rs.choice(["before", "after", "after", "never"]) for _ in range(4)], bcap=rs.choice([None, None, 10**6]))
     return cfg
@@ -175,6 +241,11 @@ def drive(w, rg, emit):
 
     def outside(rid):
         r = w.res[rid]
+        if r.disk is not None and rg.random() < 0.25:
+            before = w.stats.get("outside_nudge_1ns", 0)
+            emit({"t": "outside", "rid": rid, "edit": ["nudge"]})
+            if w.stats.get("outside_nudge_1ns", 0) > before:
+                return
         emit({"t": "outside", "rid": rid, "edit": G.gen_outside_edit(rg, w, r, 2) if r.disk is not None and rg.random() < 0.8
               else ["replace", gen_value(rg, w.fresh, 2, r.kind, 3)]})
     for rid in range(n):
@@ -215,13 +286,34 @@ def drive(w, rg, emit):
     for rid in order:
         if cfg["outside"][rid] == "after":
             outside(rid)
+    early = cfg["forced"] and rg.random() < 0.4
+    if early:
+        # the capacity-forced flush happens BETWEEN the outside change and the (first) buffered modification
+        emit({"t": "setcap", "family": cfg["family"], "kind": G.pick(rg, kinds), "n": 0})
+        w.probe("forced_flush_before_modification")
     for rid in order:
         role = cfg["roles"][rid]
         if role == "modified":
             access(rid, True)
         elif role == "readonly" and rg.random() < 0.5:
             access(rid, False)
-    if cfg["forced"]:
+    if early:
+        pass
+    elif cfg["forced"] and cfg["shape"] in ("backend", "nested") and rg.random() < 0.5:
+        # forced flush from inside an operation on a file that is not buffered yet
+        cand = [rid for rid in range(n) if w.res[rid].bufstate is None and not any(c["kind"] == "obj" and c["oid"] == objs[rid].oid for c in w.ctx)
+                and w.res[rid].exists]
+        if cand:
+            rid = G.pick(rg, cand)
+            h = w.handles[objs[rid].root_hid]
+            st = G.gen_op_step(rg, w, h, depth=1, mut_weight=0.6, keep_p=0.0)
+            from ..core.values import get_path as _gp1
+            ok = not isinstance(M.model_apply(_gp1(deep(w.res[rid].model), h.path), st["name"], M.dec(st["args"], None)), M.Raised)
+            if cfg["strategy"] == "serialized" and st["name"] in ("clear", "reset") and not h.path:
+                ok = False   # root clear/reset do not load first: the flush would only happen at their save (kept out for a crisp oracle)
+            if st["name"] != "popitem" and ok:
+                emit({"t": "opforce", "family": cfg["family"], "kind": w.res[rid].kind, "hid": h.hid, "name": st["name"], "args": st["args"]})
+    elif cfg["forced"]:
         emit({"t": "setcap", "family": cfg["family"], "kind": G.pick(rg, kinds), "n": 0})
         for rid in order:
             if cfg["roles"][rid] != "untouched" and rg.random() < 0.4:
